@@ -528,7 +528,7 @@ func TestC01(t *testing.T) {
 	}
 	rep.Rule = "exhaustive product: leaf size x content length (every length 0..3L+1 at L=64 in thorough; boundary lengths otherwise) x content pattern x source chunking (every chunk size 1..2L+1, one single write, 32KiB writes) x flush concurrency; per stored object the full read battery (Read with every buffer size, ReadAt at every offset x 7 lengths x prefetch/cache settings, WriteTo to Writer and WriterAt, io.Copy, mixed styles); distinct = distinct (L, n, pattern) objects; evaluations = Put calls + individual read calls"
 	rep.Assume("reference store = in-memory map with GCS-like contract (harness/lib/memstore.go); blobs are delivered in >=2 Read calls followed by a separate (0,EOF)")
-	parent := lib.RunCases(t, rep, "TestC01", len(cases), 0, 15*time.Second, func(i int) { c01run(rep, cases[i]) },
+	parent := lib.RunCases(t, rep, "TestC01", len(cases), 0, 60*time.Second, func(i int) { c01run(rep, cases[i]) },
 		func(i int, how, output string) {
 			c := cases[i]
 			kind := "hang"
